@@ -10,23 +10,23 @@ NOTE = ("trusted: g++ 12 code generation, the host CPU's execution of each ISA, 
         "nothing is claimed outside the stated alphabets/bounds or for architectures the host cannot execute (NEON/SVE/RVV/WASM, fma4, avx512er/pf)")
 
 CLAIMED = {
-    "C01": ("Every operand tuple of the stated alphabets (all 8-bit pairs, 16-bit ALL16 x lattice, 32/64-bit lattice^2, ternary lattices), at every lane offset, on each of the 22 executable architectures is executed by the real kernel and compared lane-exactly with an __int128 reference model; exhaustive within that bound (thorough: all 2^32 16-bit pairs).", "6 C01", "xvdrive"),
+    "C01": ("Every operand tuple of the stated alphabets (all 8-bit pairs, 16-bit ALL16 x lattice, 32/64-bit lattice^2, ternary lattices), at every lane offset, on each of the 22 executable architectures is executed by the real kernel and compared lane-exactly with an __int128 reference model; exhaustive within that bound (thorough: all 2^32 16-bit pairs). A core set of the operations is also executed for the twin element types char, long long and unsigned long long (distinct C++ types with the layout of int8_t/int64_t/uint64_t that miss every overload written in terms of the fixed-width names).", "6 C01", "xvdrive"),
     "C02": ("Every point of the IEEE lattices (specials, every binade x structured mantissas, seed patterns; thorough: all 2^32 float32 patterns for unary operations), pairs and triples of lattice values, at every lane offset and on each architecture, compared bit-for-bit with the scalar SSE2 IEEE operation / glibc (fused-or-unfused latitude for the fma family, either operand for equal min/max operands).", "6 C02", "xvdrive"),
-    "C03": ("All comparison outcomes on the C01/C02 pair spaces; every 16-bit mask value, all pairs of 8-bit masks and 16-bit x special pairs through five provenance/observation pairs (depth-2 chaining) against the n-bit integer model of a mask; select with tagged operands; on each architecture.", "6 C03", "xvdrive"),
-    "C04": ("Every load/store form x element type is executed at every start address of three placement windows against PROT_NONE guard pages and across a page boundary on each architecture, so that a one-byte over-read or over-write faults; store neighbourhoods are compared byte for byte; the converting forms in four spellings (load_as/store_as with both mode tags, the batch members); gather/scatter over exhaustive (n <= 4) and structured index vectors with guarded tables, with unsigned indices above 2^(bits-1), and through a mid-table pointer with negative and positive signed indices for every table element type (converting forms); thorough adds an AddressSanitizer build for internal scratch buffers.", "6 C04", "xvmem"),
+    "C03": ("All comparison outcomes on the C01/C02 pair spaces; every 16-bit mask value, all pairs of 8-bit masks and 16-bit x special pairs through five provenance/observation pairs (depth-2 chaining) against the n-bit integer model of a mask; select with tagged operands; on each architecture. The comparisons, select and one mask operation of every provenance are also executed for the twin element types char, long long and unsigned long long.", "6 C03", "xvdrive"),
+    "C04": ("Every load/store form x element type is executed at every start address of three placement windows against PROT_NONE guard pages and across a page boundary on each architecture, so that a one-byte over-read or over-write faults; store neighbourhoods are compared byte for byte; the converting forms in four spellings (load_as/store_as with both mode tags, the batch members); gather/scatter over exhaustive (n <= 4) and structured index vectors with guarded tables, with unsigned indices above 2^(bits-1), and through a mid-table pointer with negative and positive signed indices for every table element type (converting forms); thorough adds an AddressSanitizer build for internal scratch buffers. Complex batches are moved through every spelling (members, load_as/store_as, load/store with a mode tag, the split real/imaginary form, the mixed-precision converting forms) in the same placements.", "6 C04", "xvmem"),
     "C05": ("Every generated compile-time mask program (about 350-860 swizzle and 570-990 shuffle instantiations per lane count incl. near misses of every regular pattern, all 4096 four-lane shuffles; thorough larger), every slide/rotate/extract/insert count, every run-time index vector of the stated families (all n^n for n <= 4, thorough n <= 8) and every compress/expand mask (all 2^n for n <= 16) is executed on byte-tagged batches on each architecture and compared bit-exactly with the index-level definition; acceptance per (architecture, type) decided by trial compilation.", "6 C05", "xvdrive"),
-    "C06": ("Every representable source value of the stated alphabets (8/16-bit exhaustive, 32-bit lattice + strided sweep, thorough all 2^32; 64-bit lattices with every rounding-regime boundary and half-way case) for every (From,To) pair of batch_cast/load_as/store_as/broadcast_as/to_int/to_float, and byte-exact bitwise_cast between all pairs, on each architecture against static_cast in a strict IEEE translation unit.", "6 C06", "xvdrive"),
-    "C09": ("Lane-aware witness placement: a distinguished addend/extreme at every lane and every lane pair over several backgrounds, plus the full lattice through every lane, for every batch size 2..64 and each architecture; a skipped lane gives 0, a doubled lane gives 2; float sums exact where representable, otherwise within the (n-1)-rounding bound; generic reduce(f) wherever the library accepts it (decided by trial compilation).", "6 C09", "xvdrive"),
-    "C07": ("Every lane value (8/16-bit exhaustive) x every shift/rotate count in [0,bits), scalar- and per-lane-count forms, at every lane offset and on each of the 22 architectures, compared lane-exactly with an unsigned-word reference model.", "6 C07", "xvdrive"),
+    "C06": ("Every representable source value of the stated alphabets (8/16-bit exhaustive, 32-bit lattice + strided sweep, thorough all 2^32; 64-bit lattices with every rounding-regime boundary and half-way case) for every (From,To) pair of batch_cast/load_as/store_as/broadcast_as/to_int/to_float, and byte-exact bitwise_cast between all pairs, on each architecture against static_cast in a strict IEEE translation unit. Every conversion from and to the twin element types char, long long and unsigned long long that the library accepts is included.", "6 C06", "xvdrive"),
+    "C09": ("Lane-aware witness placement: a distinguished addend/extreme at every lane and every lane pair over several backgrounds, plus the full lattice through every lane, for every batch size 2..64 and each architecture; a skipped lane gives 0, a doubled lane gives 2; float sums exact where representable, otherwise within the (n-1)-rounding bound; generic reduce(f) wherever the library accepts it (decided by trial compilation). reduce_add (and reduce_max/reduce_min where the library accepts them) is also executed for the twin element types char, long long and unsigned long long.", "6 C09", "xvdrive"),
+    "C07": ("Every lane value (8/16-bit exhaustive) x every shift/rotate count in [0,bits), scalar- and per-lane-count forms, at every lane offset and on each of the 22 architectures, compared lane-exactly with an unsigned-word reference model. The bitwise operators, shifts and rotates are also executed for the twin element types char, long long and unsigned long long.", "6 C07", "xvdrive"),
     "C08": ("Every k/2 and neighbours, windows at the magic magnitudes, every binade x mantissa patterns (thorough: all 2^32 float32 patterns), on each architecture, compared as numbers with glibc's rounding functions; integer-returning forms whenever the result fits.", "6 C08", "xvdrive"),
     "C10": ("Thorough tier: all 2^32 float32 arguments of every unary elementary function, in two stream orders, on each of the 22 architectures, judged against the frozen per-function ulp bounds of DESIGN.md 8.1 inside the normal range and against the graceful-degradation predicate outside, with MPFR as arbiter; quick tier: every binade x 2048 mantissas plus windows at every algorithm switch point. Binary functions on lattice^2.", "6 C10, 8.1", "xvmath"),
     "C11": ("Every point of a stated double lattice (all binades x structured mantissas, windows at every switch point, k*pi/2 +- ulps up to 2^900, gamma poles) in two stream orders on each architecture, long double reference with MPFR arbiter; the coverage statement is about this lattice only.", "6 C11, 8.2", "xvmath"),
     "C12": ("The special-operand table of the property (NaN, domain errors, poles, limits, identities) is placed in every lane among every companion class on each architecture; the symmetry/identity relations (odd, even, sincos, fabs/abs, rint/nearbyint, pow(x,0)) are checked bit-for-bit on every point of the unary argument spaces (thorough: all 2^32 float32 arguments).", "6 C12", "xvmath"),
     "C13": ("Every (subject operand, lane position, companion class) triple of stated finite alphabets is executed next to the broadcast batch of the same subject on each architecture: bit-identity for the exact operations of C01-C08, same special-value class and accuracy bound for the elementary functions, with companion classes on both sides of every whole-batch any()/all() threshold.", "6 C13", "xvdrive+xvmath"),
     "C14": ("For every argument of the C10/C11 spaces and every architecture the number of iterations of the data-dependent loops of one call (counted through the XSIMD_VERIF_LOOP_TICK hook) is compared with a frozen per-function constant; calls are aborted after 1000 iterations, and a watchdog catches any call that does not return within 30 s (loops added without a tick). All data-dependent loops found by a source audit are hooked: the seven gamma loops, the four loops of the scalar Payne-Hanek reduction behind sin/cos/tan for huge arguments, and the square-and-multiply loop of pow(x, integer), which is explored over 40 exponents (incl. the extremes) of six integer types. A second part executes every element-wise operation of C01/C02/C03/C06/C07/C08 (ldexp, frexp, nextafter, conversions, shifts ...) on boundary-alphabet placement spaces incl. the extremes of every operand type and judges the thread CPU time of every block of kernel calls (limit 0.5 s, the library needs milliseconds); the math explorer applies the same CPU-time oracle (1 s per block) to every function it runs.", "6 C14, 8.3, 11.5", "xvmath+xvdrive"),
-    "C15": ("All 5 242 880 hardware-presentable configurations of the CPUID feature bits and OS states the detector reads are injected and the availability flags compared with the property's decision model (exhaustive); the dispatcher is instantiated for about 600 generated architecture lists and run under every relevant availability vector.", "6 C15", "xvcpuid"),
+    "C15": ("All 5 242 880 hardware-presentable configurations of the CPUID feature bits and OS states the detector reads are injected and the availability flags compared with the property's decision model (exhaustive); the dispatcher is instantiated for about 600 generated architecture lists and run under every relevant availability vector. Four functor shapes are dispatched (lvalue/rvalue/const arguments with a value result on every list; void without arguments through a dispatcher called twice, reference result, const functor with a move-only result on every fifth and every single-element list).", "6 C15", "xvcpuid"),
     "C18": ("All allocate/deallocate histories up to length 5 (thorough 6) over a 9-symbol alphabet, for 40 (T, Align) instantiations, executed on the real allocator under AddressSanitizer with a model of live blocks checked after every step; every subset of <= 2 injected posix_memalign failures per history; large requests (around every power of two up to 2^62 bytes) observed at the interposed posix_memalign (requested size and alignment), complete enumeration of the size-overflow window and of the alignment predicates over their residues, for element types with alignof == sizeof and alignof < sizeof.", "6 C18", "xvalloc"),
-    "C16": ("Every operand tuple of a stated log-polar grid (all axes and branch cuts with both zero signs, +-1 ulp off the axes) for the arithmetic in every operator spelling (incl. compound assignment, mixed complex/real operands and the self-aliased forms z OP= z), fused forms, comparisons, accessors, the interleaved load/store forms through arrays of std::complex<T> and the claimed complex functions is executed on each architecture and compared componentwise with std::complex<long double> within 8 / 32 eps of max(|result|,1); the coverage statement is about this grid.", "6 C16, 5.1", "xvmath"),
+    "C16": ("Every operand tuple of a stated log-polar grid (all axes and branch cuts with both zero signs, +-1 ulp off the axes) for the arithmetic in every operator spelling (incl. compound assignment, mixed complex/real operands and the self-aliased forms z OP= z), fused forms, comparisons, accessors, the interleaved load/store forms through arrays of std::complex<T> and the claimed complex functions is executed on each architecture and compared componentwise with std::complex<long double> within 8 / 32 eps of max(|result|,1); the coverage statement is about this grid. The exact operations (neg, real, imag, conj, proj, ==, !=) are additionally executed on full-range operands (components from zero to MAX and infinity, squared modulus overflowing or underflowing) and proj is judged against std::proj; the real-batch overloads of real/imag/conj/proj/norm/arg are included.", "6 C16, 5.1", "xvmath"),
     "C17": ("Every scalar overload of the list is executed on the full operand spaces of C01/C02/C03/C06/C07/C08 (non-NaN operands) under each architecture's compile flags and judged by the same reference model as the batch lanes, so scalar and batch agree wherever the model is single-valued; clip and integer-exponent pow (26 exponents incl. INT_MIN/INT_MAX) are checked in both forms against one shared model; the scalar overloads of 26 elementary functions are judged against the exact result with the bound the property text gives for the family, over the C10/C11 argument spaces.", "6 C17", "xvdrive+xvmath"),
     "C19": ("Every template instantiation of the stated pack families (one-hot / all-but-one per lane, arange, reverse, extremes, seed packs, generators, every binary and unary operator over all ordered pairs of an 11-symbol boundary alphabet) for all 8 integer element types and 22 architectures is compiled with static_asserts computed independently by the generator and executed against the run-time conversion; the constant-mask APIs are compared with the run-time forms through the shared index-level reference.", "6 C19", "gen/gen_const.py+xvdrive"),
     "C20": ("Exhaustive in the strict sense: for each of the 25 x86/emulated architectures a generated program asserts, at compile time, the geometry of every (architecture, element type, lane count) triple (about 1170 obligations per architecture), the list order against an independent parent table, arch_list::alignment(), make_sized_batch for N = 1..128 and the trait widths; an aligned load at exactly alignment() is executed on every runnable architecture. The same obligations (with the ARM list order and ILP32 type sizes) are compiled for seven cross-target programs (neon, neon64, i8mm<neon64>, sve 128/256/512, wasm) with clang -fsyntax-only against the host's libstdc++ headers and the shims of /verif/shim: compile-time obligations only, nothing is executed for them.", "6 C20", "gen/gen_geometry.py"),
